@@ -21,8 +21,14 @@ open CifModel CifModel.Model CifModel.Model.Lexer CifModel.Gen.ErrCodes
 @[simp] theorem pureT_eq {α} (a : α) : (pure a : PT α) = PT.pure a := rfl
 @[simp] theorem bindT_eq {α β} (m : PT α) (f : α → PT β) : (m >>= f) = PT.bind m f := rfl
 
-/-- the target is the replay of the trace so far -/
-def Good (o : Opts) (pre0 : Cif) (wt : WT) : Prop := wt.w.cif = replay o wt.ops pre0
+/-- what every recorded call satisfies by construction: cif_container_set_value is only recorded under a valid data name (the C
+    function refuses any other: CIF_INVALID_ITEMNAME) -/
+def SOp.wf : SOp → Prop
+  | .setVal _ n _ => isValidName true n = true
+  | _ => True
+
+/-- the target is the replay of the trace so far, and every recorded call is well-formed -/
+def Good (o : Opts) (pre0 : Cif) (wt : WT) : Prop := wt.w.cif = replay o wt.ops pre0 ∧ ∀ op ∈ wt.ops, op.wf
 
 structure SimHT (o : Opts) (pre0 : Cif) {α} (pre : Cif → Prop) (mt : PT α) (m : P α) (post : α → Cif → Prop) : Prop where
   run : ∀ pol wt, Good o pre0 wt → pre wt.w.cif →
@@ -100,14 +106,17 @@ theorem SimHT.getCif {pre : Cif → Prop} : SimHT o pre0 pre (Parser.liftP Parse
   ⟨fun _ wt hg hp => ⟨rfl, rfl, hg, rfl, hp⟩⟩
 
 /-- a recorded store call against the original's `setCif` -/
-theorem SimHT.emit (op : SOp) (c' : Cif) :
+theorem SimHT.emit (op : SOp) (c' : Cif) (hwf : op.wf) :
     SimHT o pre0 (fun c => op.apply o c = c') (emit o op) (Parser.setCif c') (fun _ _ => True) := by
   constructor
   intro pol wt hg hp
   simp only [Parser.emit, Parser.setCif]
   refine ⟨by first | rfl | trivial, by rw [hp], ?_, trivial⟩
-  simp only [Good, replay, List.foldr_cons] at hg ⊢
-  rw [← hg]
+  simp only [Good, replay, List.foldr_cons, List.mem_cons] at hg ⊢
+  refine ⟨by rw [← hg.1], ?_⟩
+  rintro x (rfl | hx)
+  · exact hwf
+  · exact hg.2 x hx
 
 theorem SimHT.ite {α} {pre : Cif → Prop} {post : α → Cif → Prop} {c : Prop} [Decidable c] {at_ bt : PT α} {a b : P α}
     (ha : SimHT o pre0 pre at_ a post) (hb : SimHT o pre0 pre bt b post) :
@@ -191,8 +200,11 @@ theorem setValue_sim (o : Opts) (pre0 : Cif) (path : Path) (name : Str) (v : V) 
     intro pol wt hg _
     simp only [Parser.emit, P.bind, P.pure, Parser.getCif, Parser.setCif, SOp.apply, setValueC]
     refine ⟨by first | rfl | trivial, rfl, ?_, trivial⟩
-    simp only [Good, replay, List.foldr_cons, SOp.apply, setValueC] at hg ⊢
-    rw [← hg]
+    simp only [Good, replay, List.foldr_cons, SOp.apply, setValueC, List.mem_cons] at hg ⊢
+    refine ⟨by rw [← hg.1], ?_⟩
+    rintro x (rfl | hx)
+    · exact hv
+    · exact hg.2 x hx
   · simp only [hv, Bool.not_false, if_true, bind_eq, pure_eq]
     constructor
     intro pol wt hg _
@@ -208,13 +220,16 @@ theorem addPacket_sim (o : Opts) (pre0 : Cif) (loopAt : Option Path) (p : List V
     intro pol wt hg _
     simp only [addPacketT, addPacket, Parser.emit, bind_eq, P.bind, Parser.getCif, Parser.setCif, SOp.apply]
     refine ⟨by first | rfl | trivial, by first | rfl | trivial, ?_, trivial⟩
-    simp only [Good, replay, List.foldr_cons, SOp.apply] at hg ⊢
-    rw [← hg]
+    simp only [Good, replay, List.foldr_cons, SOp.apply, List.mem_cons] at hg ⊢
+    refine ⟨by rw [← hg.1], ?_⟩
+    rintro x (rfl | hx)
+    · exact trivial
+    · exact hg.2 x hx
 
 /-- a recorded call against the original's `setCif`, the target being known -/
-theorem SimHT.emit_at (op : SOp) (cif c' : Cif) (h : op.apply o cif = c') :
+theorem SimHT.emit_at (op : SOp) (cif c' : Cif) (h : op.apply o cif = c') (hwf : op.wf) :
     SimHT o pre0 (fun c => cif = c ∧ True) (Parser.emit o op) (Parser.setCif c') (fun _ _ => True) :=
-  (SimHT.emit op c').conseq (fun c hc => by rw [← hc.1]; exact h) (fun _ _ h => h)
+  (SimHT.emit op c' hwf).conseq (fun c hc => by rw [← hc.1]; exact h) (fun _ _ h => h)
 
 /-- the pruning at the end of parse_container -/
 theorem prune_sim (o : Opts) (pre0 : Cif) (path : Path) (s : PS) :
@@ -224,8 +239,11 @@ theorem prune_sim (o : Opts) (pre0 : Cif) (path : Path) (s : PS) :
   intro pol wt hg _
   simp only [PT.bind, P.bind, Parser.emit, Parser.getCif, Parser.setCif, PT.pure, P.pure, SOp.apply]
   refine ⟨by first | rfl | trivial, by first | rfl | trivial, ?_, trivial⟩
-  simp only [Good, replay, List.foldr_cons, SOp.apply] at hg ⊢
-  rw [← hg]
+  simp only [Good, replay, List.foldr_cons, SOp.apply, List.mem_cons] at hg ⊢
+  refine ⟨by rw [← hg.1], ?_⟩
+  rintro x (rfl | hx)
+  · exact trivial
+  · exact hg.2 x hx
 
 section Productions
 attribute [local irreducible] parseValue listLoop tableLoop tableEntry nextTok P.bind P.pure Parser.report Parser.fail
@@ -272,7 +290,7 @@ theorem parseLoop_sim (o : Opts) (pre0 : Cif) (fuel : Nat) (s : PS) (cont : Opti
           intro cif
           apply SimHT.ite
           · exact Sim.weaken (by simq [hpk])
-          · apply SimHT.bind (SimHT.emit_at _ cif _ rfl)
+          · apply SimHT.bind (SimHT.emit_at _ cif _ rfl (by trivial))
             intro _
             exact Sim.weaken (by simq [hpk])
 
@@ -286,28 +304,28 @@ theorem createIn_sim (o : Opts) (pre0 : Cif) (isBlock : Bool) (parent : Path) (c
       (PT.bind (Parser.liftP (Parser.report code line col)) fun _ => PT.pure a)
       (P.bind (Parser.report code line col) fun _ => P.pure a) (fun _ _ => True) :=
     fun code line col a => Sim.weaken (Sim.bind (Sim.liftP _ (fun _ => by keepq)) (fun _ => Sim.pure _))
-  have hadd : ∀ (op : SOp) (c' : Cif) (a : Path), op.apply o cif = c' → SimHT o pre0 (fun c => cif = c ∧ True)
+  have hadd : ∀ (op : SOp) (c' : Cif) (a : Path), op.apply o cif = c' → op.wf → SimHT o pre0 (fun c => cif = c ∧ True)
       (PT.bind (emit o op) fun _ => PT.pure a) (P.bind (Parser.setCif c') fun _ => P.pure a) (fun _ _ => True) :=
-    fun op c' a h => SimHT.bind (SimHT.emit_at op cif c' h) (fun _ => Sim.weaken (Sim.pure _))
+    fun op c' a h hwf => SimHT.bind (SimHT.emit_at op cif c' h hwf) (fun _ => Sim.weaken (Sim.pure _))
   cases isBlock <;> simp only [Bool.false_eq_true, if_false, if_true]
   · apply SimHT.ite
     · apply SimHT.bind (SimHT.liftP _ (fun _ => by keepq))
       intro _
       apply SimHT.ite
       · exact hrep _ _ _ _
-      · exact hadd _ _ _ rfl
+      · exact hadd _ _ _ rfl (by trivial)
     · apply SimHT.ite
       · exact hrep _ _ _ _
-      · exact hadd _ _ _ rfl
+      · exact hadd _ _ _ rfl (by trivial)
   · apply SimHT.ite
     · apply SimHT.bind (SimHT.liftP _ (fun _ => by keepq))
       intro _
       apply SimHT.ite
       · exact hrep _ _ _ _
-      · exact hadd _ _ _ rfl
+      · exact hadd _ _ _ rfl (by trivial)
     · apply SimHT.ite
       · exact hrep _ _ _ _
-      · exact hadd _ _ _ rfl
+      · exact hadd _ _ _ rfl (by trivial)
 
 theorem containers_sim (o : Opts) (pre0 : Cif) : ∀ fuel : Nat,
     (∀ s cont isBlock, Sim o pre0 (parseContainerT o fuel s cont isBlock) (parseContainer o fuel s cont isBlock)) ∧
@@ -359,7 +377,7 @@ theorem blocksLoop_sim (o : Opts) (pre0 : Cif) : ∀ (fuel : Nat) (s : PS), Sim 
       intro cif
       apply SimHT.ite
       · exact Sim.weaken hK
-      · exact SimHT.bind (SimHT.emit_at _ cif _ rfl) (fun _ => Sim.weaken hK)
+      · exact SimHT.bind (SimHT.emit_at _ cif _ rfl (by trivial)) (fun _ => Sim.weaken hK)
     cases ty <;> simp only [] <;>
       first
         | (simq [hk, hc, ih]; done)
@@ -398,8 +416,10 @@ theorem parseInternal_sim (o : Opts) (pre0 : Cif) (fuel : Nat) (units : Str) :
 /-- forgetting the trace gives back the parser of Model/Parser.lean: same return value, same reports, same target -/
 theorem runT_out (o : Opts) (pol : Policy) (pre : Cif) (fuel : Nat) (units : Str) :
     (runT o pol pre fuel units).out = run o pol pre fuel units ∧
-    (run o pol pre fuel units).cif = replay o (runT o pol pre fuel units).ops.reverse pre := by
-  have h := (parseInternal_sim o pre fuel units).run pol { w := { log := [], cif := pre }, ops := [] } rfl trivial
+    (run o pol pre fuel units).cif = replay o (runT o pol pre fuel units).ops.reverse pre ∧
+    ∀ op ∈ (runT o pol pre fuel units).ops, op.wf := by
+  have h := (parseInternal_sim o pre fuel units).run pol { w := { log := [], cif := pre }, ops := [] }
+    ⟨rfl, fun _ h => by cases h⟩ trivial
   unfold runT run
   cases hA : parseInternalT o fuel units pol { w := { log := [], cif := pre }, ops := [] } with
   | ok a wt =>
@@ -408,7 +428,7 @@ theorem runT_out (o : Opts) (pol : Policy) (pre : Cif) (fuel : Nat) (units : Str
       rw [hA, hB] at h
       obtain ⟨_, rfl, hg, _⟩ := h
       simp only [List.reverse_reverse]
-      exact ⟨by first | rfl | trivial, hg⟩
+      exact ⟨by first | rfl | trivial, hg.1, fun op hop => hg.2 op (List.mem_reverse.mp hop)⟩
     | abort r w' => rw [hA, hB] at h; exact h.elim
   | abort r wt =>
     cases hB : parseInternal o fuel units pol { log := [], cif := pre } with
@@ -417,7 +437,7 @@ theorem runT_out (o : Opts) (pol : Policy) (pre : Cif) (fuel : Nat) (units : Str
       rw [hA, hB] at h
       obtain ⟨rfl, rfl, hg⟩ := h
       simp only [List.reverse_reverse]
-      exact ⟨by first | rfl | trivial, hg⟩
+      exact ⟨by first | rfl | trivial, hg.1, fun op hop => hg.2 op (List.mem_reverse.mp hop)⟩
 
 theorem parseT_out (o : Opts) (pol : Policy) (pre : Cif) (units : Str) : (parseT o pol pre units).out = parse o pol pre units :=
   (runT_out o pol pre (fuelFor units) units).1
@@ -425,8 +445,12 @@ theorem parseT_out (o : Opts) (pol : Policy) (pre : Cif) (units : Str) : (parseT
 /-- the target after a parse is the replay of the recorded store calls (oldest first) on the initial target -/
 theorem parse_replay (o : Opts) (pol : Policy) (pre : Cif) (units : Str) :
     (parse o pol pre units).cif = (storeTrace o pol pre units).foldl (fun c op => op.apply o c) pre := by
-  have h := (runT_out o pol pre (fuelFor units) units).2
+  have h := (runT_out o pol pre (fuelFor units) units).2.1
   unfold parse storeTrace parseT
   rw [h, replay, List.foldr_reverse]
+
+/-- cif_container_set_value is only ever called (successfully) with a valid data name -/
+theorem storeTrace_wf (o : Opts) (pol : Policy) (pre : Cif) (units : Str) : ∀ op ∈ storeTrace o pol pre units, op.wf :=
+  (runT_out o pol pre (fuelFor units) units).2.2
 
 end CifModel.Model.Parser
